@@ -434,14 +434,18 @@ type Case struct {
 
 // Features feed the known-finding signatures evaluated by the driver.
 type Features struct {
-	FilledRows   int    `json:"filled_rows"`  // rows of the answer (all groups)
-	PrefillRows  int    `json:"prefill_rows"` // rows of the same query with fill(none)
-	Groups       int    `json:"groups"`
-	EmptyBucket  bool   `json:"empty_bucket"`  // some (group, bucket) of the filled range has no data at all
-	PartialRow   bool   `json:"partial_row"`   // some pre-fill row has both null and non-null columns
-	LeadingEmpty bool   `json:"leading_empty"` // some group's first bucket of the range is empty
-	HasTie       bool   `json:"has_tie"`       // plain selection: two rows of one group share a timestamp
-	Layout       string `json:"layout"`        // inorder | ooo (how the data set was written)
+	FilledRows   int  `json:"filled_rows"`  // rows of the answer (all groups)
+	PrefillRows  int  `json:"prefill_rows"` // rows of the same query with fill(none)
+	Groups       int  `json:"groups"`
+	EmptyBucket  bool `json:"empty_bucket"`  // some (group, bucket) of the filled range has no data at all
+	PartialRow   bool `json:"partial_row"`   // some pre-fill row has both null and non-null columns
+	LeadingEmpty bool `json:"leading_empty"` // some group's first bucket of the range is empty
+	// SingleRowGroup: some group other than the first has exactly one pre-fill row and buckets after it
+	SingleRowGroup bool `json:"single_row_group"`
+	// SelectorTie: single min()/max() without time(): in some group the extreme value occurs at two timestamps
+	SelectorTie bool   `json:"selector_tie"`
+	HasTie      bool   `json:"has_tie"` // plain selection: two rows of one group share a timestamp
+	Layout      string `json:"layout"`  // inorder | ooo (how the data set was written)
 }
 
 func features(ds *Dataset, q *Query) Features {
@@ -462,6 +466,26 @@ func features(ds *Dataset, q *Query) Features {
 			for i := 1; i < len(s.Rows); i++ {
 				if s.Rows[i].T == s.Rows[i-1].T {
 					f.HasTie = true
+				}
+			}
+		}
+	}
+	if q.Kind == "agg" && q.Interval == 0 && len(q.Aggs) == 1 && (q.Aggs[0].Fn == "min" || q.Aggs[0].Fn == "max") {
+		// the answer's time is the earliest point carrying the extreme value; is there a later one too?
+		lo, hi := q.bounds()
+		for _, g := range a {
+			ext := g.Rows[0].C[0].N
+			for si := range ds.Series {
+				sr := &ds.Series[si]
+				if cmpKey(keyOf(sr, q.Group), g.Key) != 0 {
+					continue
+				}
+				for ri := range sr.Rows {
+					r := &sr.Rows[ri]
+					v := r.V[q.Aggs[0].F]
+					if v != nil && *v == ext && r.T != g.Rows[0].T && r.T >= lo && r.T <= hi && evalPred(q.Pred, sr, r) {
+						f.SelectorTie = true
+					}
 				}
 			}
 		}
@@ -487,9 +511,13 @@ func features(ds *Dataset, q *Query) Features {
 		if q.Fill != "none" {
 			f.EmptyBucket = f.FilledRows > f.PrefillRows
 			first := floorDiv(q.Tmin, q.Interval) * q.Interval
-			for _, s := range pre {
+			last := floorDiv(q.Tmax, q.Interval) * q.Interval
+			for gi, s := range pre {
 				if len(s.Rows) > 0 && s.Rows[0].T != first {
 					f.LeadingEmpty = true
+				}
+				if gi > 0 && len(s.Rows) == 1 && s.Rows[0].T != last {
+					f.SingleRowGroup = true
 				}
 			}
 		}
@@ -699,7 +727,7 @@ func main() {
 		os.Exit(2)
 	}
 	tier := gen.Tier()
-	r := gen.New(gen.FromEnv(8).Uint64()) // decorrelate neighbouring seeds
+	r := gen.FromEnv(8)
 
 	var works []*work
 	for _, f := range os.Args[5:] {
